@@ -503,6 +503,8 @@ struct Ex<'a> {
     /// nodes explored for this row since the last reset / limit (only enforced for truncated kernels)
     row_nodes: u64,
     row_limit: u64,
+    /// wall-clock limit for the whole system (exceeding it makes the system abstain)
+    deadline: std::time::Instant,
 }
 const ROW_BUDGET_MSG: &str = "row node budget";
 
@@ -674,6 +676,9 @@ impl<'a> Ex<'a> {
         self.row_nodes += 1;
         if self.row_nodes > self.row_limit {
             return Err(ROW_BUDGET_MSG.to_string());
+        }
+        if self.ct.nodes % 64 == 0 && std::time::Instant::now() > self.deadline {
+            return Err("time budget of the system exhausted".to_string());
         }
         let base0 = self.obs(pre);
         let d = pre.len();
@@ -1235,6 +1240,8 @@ struct Measured {
 }
 
 fn measure(sys: &dyn Sys, intern: &mut Interner, max_cfgs: usize, mc: u64, seed: u64) -> Result<Measured, String> {
+    let limit: u64 = std::env::var("KERN_TIME_LIMIT").ok().and_then(|s| s.parse().ok()).unwrap_or(240);
+    let deadline = std::time::Instant::now() + std::time::Duration::from_secs(limit);
     let ks = sys.kernels();
     let mut cache: BTreeMap<u64, u32> = BTreeMap::new();
     let mut ct = Counters::default();
@@ -1257,7 +1264,7 @@ fn measure(sys: &dyn Sys, intern: &mut Interner, max_cfgs: usize, mc: u64, seed:
     while let Some(id) = queue.pop_front() {
         let cfg = intern.cfgs[id as usize].clone();
         for (k, spec) in ks.iter().enumerate() {
-            let mut ex = Ex { sys, cfg: cfg.clone(), k, intern, cache: &mut cache, ct: &mut ct, eps: spec.eps, trunc: 0.0, maxdepth: if spec.eps > 0.0 { 400 } else { 96 }, budget: 20_000, memo: HashMap::new(), validated: Default::default(), hints: HashMap::new(), nomerge: Default::default(), row_nodes: 0, row_limit: u64::MAX };
+            let mut ex = Ex { sys, cfg: cfg.clone(), k, intern, cache: &mut cache, ct: &mut ct, eps: spec.eps, trunc: 0.0, maxdepth: if spec.eps > 0.0 { 400 } else { 96 }, budget: 4_000, memo: HashMap::new(), validated: Default::default(), hints: HashMap::new(), nomerge: Default::default(), row_nodes: 0, row_limit: u64::MAX, deadline };
             // truncated kernels (loops): refine the truncation threshold as far as a node budget allows
             let mut sched: Vec<f64> = if spec.eps > 0.0 { [1e-3, 1e-5, 1e-7, 1e-9, 1e-11].iter().cloned().filter(|e| *e > spec.eps).collect() } else { vec![] };
             sched.push(spec.eps);
@@ -1292,6 +1299,7 @@ fn measure(sys: &dyn Sys, intern: &mut Interner, max_cfgs: usize, mc: u64, seed:
                 match res {
                     Ok(t) => best = Some(t),
                     Err(e) if e.contains(ROW_BUDGET_MSG) && best.is_some() => break,
+                    Err(e) if e.contains("time budget") => return Err(e),
                     Err(e) => return Err(format!("kernel {} from {}: {}", spec.name, cfg.show(), e)),
                 }
             }
@@ -1656,6 +1664,34 @@ fn generic_systems(thorough: bool) -> Vec<GenSys> {
             heatbath: true,
             kern: vec![k("diag", l == 1, 0.0), k("free", true, 0.0)],
             loops_flag: false,
+        });
+    }
+    // (6) mixed arity, diagonal terms only (loops flip world-line segments): a two-site and a single-site term. Before the
+    //     fix 7073632 (F22) the start leg was drawn as (operator, then leg of that operator), which is not uniform over
+    //     legs when arities differ, and the loop move was not stationary. (7): one-, two- and three-site terms together.
+    let eps_mixed: f64 = std::env::var("KERN_EPS_MIXED").ok().and_then(|s| s.parse().ok()).unwrap_or(1e-5);
+    v.push(GenSys {
+        nvars: 2,
+        inter: vec![Inter { diagonal: true, mat: vec![0.25, 0.75, 0.75, 0.25], vars: vec![0, 1] }, Inter { diagonal: true, mat: vec![0.5, 0.125], vars: vec![1] }],
+        beta: 1.0,
+        l: 2,
+        heatbath: false,
+        kern: vec![k("diag", false, 0.0), k("loop", true, eps_mixed), k("free", true, 0.0)],
+        loops_flag: true,
+    });
+    if thorough || std::env::var("KERN_ALL").is_ok() {
+        v.push(GenSys {
+            nvars: 3,
+            inter: vec![
+                Inter { diagonal: true, mat: vec![0.5, 1.0, 0.25, 1.0, 1.0, 0.5, 1.0, 0.25], vars: vec![0, 1, 2] },
+                Inter { diagonal: true, mat: vec![0.5, 1.0, 1.0, 0.25], vars: vec![0, 1] },
+                Inter { diagonal: true, mat: vec![0.5, 0.25], vars: vec![2] },
+            ],
+            beta: 1.0,
+            l: 2,
+            heatbath: false,
+            kern: vec![k("diag", false, 0.0), k("loop", true, eps_mixed), k("free", true, 0.0)],
+            loops_flag: true,
         });
     }
     // (5) the same exchange model with the heat-bath diagonal update and loops
